@@ -1704,4 +1704,177 @@ Proof.
   apply qsum_congr; apply sum_equiv_col.
 Qed.
 
+
+(* one-sided general form of the column-scale law: factor k/|k| on function m0 of shell a *)
+Theorem nblock_scale_col_a g sa sb m0 k kabs :
+  (forall x, fapx K x = x) -> scale_hyps sa m0 k kabs ->
+  nblock g (scale_col sa m0 k) sb
+  = mk4 (nseg sa) (ncomp sa) (nseg sb) (ncomp sb)
+      (fun ma ia mb ib => colfac m0 (k / kabs) ma * nth4' ma ia mb ib (nblock g sa sb)).
+Proof.
+  intros Hapx Ha. rewrite !nblock_form, !nseg_scale_col.
+  change (ncomp (scale_col sa m0 k)) with (ncomp sa).
+  apply mk4_ext. intros ma ia mb ib Hma Hia Hmb Hib. rewrite nth4_mk4 by assumption.
+  unfold nentry. rewrite kentry_scale_col_a.
+  rewrite (ncget_scale_col sa m0 k kabs ma ia Hapx Ha Hma Hia).
+  destruct Ha as [Ha _]. unfold colfac. destruct (Nat.eqb ma m0); field; auto.
+Qed.
+
+Theorem nblock_scale_col_b g sa sb m0 k kabs :
+  (forall x, fapx K x = x) -> scale_hyps sb m0 k kabs ->
+  nblock g sa (scale_col sb m0 k)
+  = mk4 (nseg sa) (ncomp sa) (nseg sb) (ncomp sb)
+      (fun ma ia mb ib => colfac m0 (k / kabs) mb * nth4' ma ia mb ib (nblock g sa sb)).
+Proof.
+  intros Hapx Hb. rewrite !nblock_form, !nseg_scale_col.
+  change (ncomp (scale_col sb m0 k)) with (ncomp sb).
+  apply mk4_ext. intros ma ia mb ib Hma Hia Hmb Hib. rewrite nth4_mk4 by assumption.
+  unfold nentry. rewrite kentry_scale_col_b.
+  rewrite (ncget_scale_col sb m0 k kabs mb ib Hapx Hb Hmb Hib).
+  destruct Hb as [Hb _]. unfold colfac. destruct (Nat.eqb mb m0); field; auto.
+Qed.
+
+(* evaluation: value of the contraction-normalised function (m, c) at a point *)
+Definition eval_nentry md ef o (s : shell F) (p : point (F:=F)) (m c : nat) : F :=
+  ncget (norm_cont K s) m c * eval_entry md ef o s p m c.
+
+Theorem eval_column_scale md ef o s m0 k kabs p m c :
+  (forall x, fapx K x = x) -> scale_hyps s m0 k kabs -> m < nseg s -> c < ncomp s ->
+  eval_nentry md ef o (scale_col s m0 k) p m c = colfac m0 (k / kabs) m * eval_nentry md ef o s p m c.
+Proof.
+  intros Hapx H Hm Hc. unfold eval_nentry. rewrite eval_scale_col_unnormalised.
+  rewrite (ncget_scale_col s m0 k kabs m c Hapx H Hm Hc).
+  destruct H as [H _]. unfold colfac. destruct (Nat.eqb m m0); field; auto.
+Qed.
+
 End P.
+
+(* ------------------------------------------------------------------ *)
+(* concrete instances at Qc: the hypotheses of the theorems are satisfiable *)
+(* ------------------------------------------------------------------ *)
+From Coq Require Import QArith Qcanon.
+Section ExQc.
+Let q (n : Z) (d : positive) : Qc := Q2Qc (Qmake n d).
+(* any closures may stand for the transcendental functions: the laws do not depend on them *)
+Definition KQ : Fops Qc := QcK true (q 3 1) (fun _ => q 1 1) (fun x => x) (fun x => x) (fun _ x => x).
+Lemma KQ_field : is_field KQ.
+Proof. apply QcK_field. Qed.
+
+Definition ex_r1 : list Qc := [q 1 1; q 1 1].
+Definition ex_r2 : list Qc := [q (-5) 4; q 1 1].
+(* a p shell with K = 3 primitives and M = 2 columns, off the origin; its second row is r1 + r2 *)
+Definition ex_sa : shell Qc :=
+  mkShell Qc 1 (q 0 1) (q 1 2) (q (-1) 1) [q 1 2; q 2 1; q 5 1]
+          [[q 1 1; q 1 2]; map2 (fadd KQ) ex_r1 ex_r2; [q 3 1; q 0 1]] false [] [].
+(* a d shell with K = 2, M = 1 *)
+Definition ex_sb : shell Qc :=
+  mkShell Qc 2 (q 1 1) (q 0 1) (q 1 4) [q 3 4; q 7 2] [[q 1 1]; [q (-1) 2]] true [] [].
+Definition ex_orders : list comp := [(0, 0, 0); (1, 0, 2)]%nat.
+
+Lemma ex_generalized_is_segmented :
+  mm_block KQ (q 0 1) (q 1 1) (q 0 1) ex_orders (col_shell KQ ex_sa 1) (col_shell KQ ex_sb 0)
+  = map (fun blk => mk4 1 3 1 6 (fun _ ia _ ib => nth4' KQ 1 ia 0 ib blk))
+        (mm_block KQ (q 0 1) (q 1 1) (q 0 1) ex_orders ex_sa ex_sb).
+Proof. apply mm_generalized_is_segmented; unfold nseg; cbn; lia. Qed.
+
+Lemma ex_prim_perm :
+  let ps := prims ex_sa in
+  mm_block KQ (q 0 1) (q 1 1) (q 0 1) ex_orders
+    (set_prims ex_sa [nth 2 ps (q 0 1, []); nth 0 ps (q 0 1, []); nth 1 ps (q 0 1, [])])
+    (set_prims ex_sb [nth 1 (prims ex_sb) (q 0 1, []); nth 0 (prims ex_sb) (q 0 1, [])])
+  = mm_block KQ (q 0 1) (q 1 1) (q 0 1) ex_orders ex_sa ex_sb.
+Proof.
+  cbv zeta. apply mm_prim_perm_invariant; try exact KQ_field; try reflexivity.
+  - change (prims ex_sa) with ([nth 0 (prims ex_sa) (q 0 1, []); nth 1 (prims ex_sa) (q 0 1, [])] ++ [nth 2 (prims ex_sa) (q 0 1, [])]).
+    apply (Permutation_app_comm _ [nth 2 (prims ex_sa) (q 0 1, [])]).
+  - apply perm_swap.
+Qed.
+
+Lemma ex_prim_split :
+  mm_block KQ (q 0 1) (q 1 1) (q 0 1) ex_orders
+    (set_prims ex_sa ([(q 1 2, [q 1 1; q 1 2])] ++ (q 2 1, ex_r1) :: (q 2 1, ex_r2) :: [(q 5 1, [q 3 1; q 0 1])])) ex_sb
+  = mm_block KQ (q 0 1) (q 1 1) (q 0 1) ex_orders ex_sa ex_sb.
+Proof. apply mm_prim_split_a with (r := map2 (fadd KQ) ex_r1 ex_r2); try exact KQ_field; reflexivity. Qed.
+
+Lemma ex_linear :
+  let C1 := [[q 1 1; q 1 2]; [q 0 1; q 2 1]; [q 3 1; q 0 1]] in
+  let C2 := [[q (-1) 3; q 1 1]; [q 4 1; q 1 7]; [q 1 1; q 1 1]] in
+  mm_entry' KQ (q 0 1) (q 1 1) (q 0 1) ex_orders (set_coeffs ex_sa (rows_add KQ C1 C2)) ex_sb 1 1 2 0 4
+  = fadd KQ (mm_entry' KQ (q 0 1) (q 1 1) (q 0 1) ex_orders (set_coeffs ex_sa C1) ex_sb 1 1 2 0 4)
+            (mm_entry' KQ (q 0 1) (q 1 1) (q 0 1) ex_orders (set_coeffs ex_sa C2) ex_sb 1 1 2 0 4).
+Proof.
+  cbv zeta. apply mm_unnormalised_additive_a; try exact KQ_field; try (unfold nseg, ncomp; cbn; lia).
+  repeat constructor.
+Qed.
+
+(* column 1 of the p shell multiplied by -1 (|k| = 1): function 1 changes sign *)
+Lemma ex_scale_hyps : scale_hyps KQ ex_sa 1 (q (-1) 1) (q 1 1).
+Proof.
+  split; [exact (F_1_neq_0 KQ_field)|]. split.
+  - intros _ c _. cbn [fsqrt KQ QcK]. apply Qc_is_canon. reflexivity.
+  - intros _ c _. cbn [fsqrt KQ QcK]. exact (F_1_neq_0 KQ_field).
+Qed.
+
+Lemma ex_column_scale_neg :
+  nblock KQ (ov_kern KQ ex_sa ex_sb) (scale_col KQ ex_sa 1 (q (-1) 1)) ex_sb
+  = mk4 2 3 1 6 (fun ma ia mb ib =>
+      fmul KQ (colfac KQ 1 (fdiv KQ (q (-1) 1) (q 1 1)) ma) (nth4' KQ ma ia mb ib (nblock KQ (ov_kern KQ ex_sa ex_sb) ex_sa ex_sb))).
+Proof. apply nblock_scale_col_a; [exact KQ_field|reflexivity|exact ex_scale_hyps]. Qed.
+End ExQc.
+
+(* ------------------------------------------------------------------ *)
+(* the reals: sqrt(k^2 x) = |k| sqrt x holds for the real square root, so a column factor k
+   multiplies the contraction-normalised function by k/|k| = +1 (k > 0) or -1 (k < 0) *)
+(* ------------------------------------------------------------------ *)
+From Coq Require Import Reals Lra RealField.
+Section ExR.
+Local Open Scope R_scope.
+Definition Rleb13 (x y : R) : bool := if Rle_dec x y then true else false.
+Definition Reqb13 (x y : R) : bool := if Req_EM_T x y then true else false.
+Definition RKc : Fops R :=
+  mkFops R 0 1 Rplus Rmult Rminus Ropp Rdiv Rinv Rleb13 Reqb13 PI sqrt exp ln (fun _ _ => 0) (fun x => x).
+Lemma RKc_field : is_field RKc.
+Proof. exact Rfield. Qed.
+
+Lemma sqrt_scale_R k x : sqrt (k * k * x) = Rabs k * sqrt x.
+Proof.
+  rewrite sqrt_mult_alt by (apply Rle_0_sqr). f_equal. exact (sqrt_Rsqr_abs k).
+Qed.
+
+Lemma scale_hyps_R (s : shell R) m0 k : k <> 0 ->
+  ((m0 < nseg s)%nat -> forall c, (c < ncomp s)%nat -> 0 < selfov RKc s m0 c) ->
+  scale_hyps RKc s m0 k (Rabs k).
+Proof.
+  intros Hk Hpos. split; [now apply Rabs_no_R0|]. split.
+  - intros _ c _. exact (sqrt_scale_R k _).
+  - intros Hm c Hc. pose proof (Hpos Hm c Hc) as H. apply sqrt_lt_R0 in H. cbn [fsqrt RKc f0]. lra.
+Qed.
+
+Definition sgnR (k : R) : R := if Rlt_dec 0 k then 1 else -1.
+
+Theorem column_scale_R g (sa sb : shell R) m0 k : k <> 0 ->
+  ((m0 < nseg sa)%nat -> forall c, (c < ncomp sa)%nat -> 0 < selfov RKc sa m0 c) ->
+  nblock RKc g (scale_col RKc sa m0 k) sb
+  = mk4 (nseg sa) (ncomp sa) (nseg sb) (ncomp sb)
+      (fun ma ia mb ib => colfac RKc m0 (sgnR k) ma * nth4' RKc ma ia mb ib (nblock RKc g sa sb)).
+Proof.
+  intros Hk Hpos.
+  rewrite (nblock_scale_col_a RKc RKc_field g sa sb m0 k (Rabs k) (fun x => eq_refl) (scale_hyps_R sa m0 k Hk Hpos)).
+  apply mk4_ext. intros ma ia mb ib _ _ _ _. change (fmul RKc) with Rmult.
+  assert (E : fdiv RKc k (Rabs k) = sgnR k); [|now rewrite E].
+  unfold sgnR. cbn [fdiv RKc]. destruct (Rlt_dec 0 k) as [Hp|Hn].
+  - rewrite Rabs_right by lra. field. lra.
+  - rewrite Rabs_left by lra. field. lra.
+Qed.
+
+(* the hypotheses hold: a positive self-overlap, scale factor -3 *)
+Lemma column_scale_R_ex :
+  forall x : R, 0 < x -> sqrt ((-3) * (-3) * x) = 3 * sqrt x /\ sqrt x <> 0 /\ sgnR (-3) = -1 /\ sgnR (1 / 1000000) = 1.
+Proof.
+  intros x Hx. split; [|split; [|split]].
+  - rewrite sqrt_scale_R. f_equal. rewrite Rabs_left; lra.
+  - apply sqrt_lt_R0 in Hx. lra.
+  - unfold sgnR. destruct (Rlt_dec 0 (-3)); lra.
+  - unfold sgnR. destruct (Rlt_dec 0 (1 / 1000000)); lra.
+Qed.
+End ExR.
